@@ -163,18 +163,22 @@ fn history(cfg: &Cfg, rep: &mut Report, h: u64, steps: usize) {
                 st[ti] = St::Pending(cur.saturating_add(delay));
             }
         } else if k < 75 {
-            name = "execute";
+            // execute_operation (invokes the target) or set_execute_operation (marks only)
+            let mark = rng.chance(1, 3);
+            name = if mark { "mark" } else { "execute" };
             let ready = matches!(st[ti], St::Pending(r) if r <= cur);
             let pred_ok = t.pred == zero || t.pred_tpl.map_or(false, |p| st[p] == St::Done);
-            want_ok = ready && pred_ok && t.func != "fail";
-            got = invoke(e, &c, "execute", call_args(&t));
+            want_ok = ready && pred_ok && (mark || t.func != "fail");
+            got = invoke(e, &c, name, call_args(&t));
             if got.is_ok() {
                 // the statement's conditions, asserted one by one, independent of want_ok
-                rep.check("exec", matches!(pre_state, St::Pending(_)), "C08/exec/execute/not-scheduled-or-done", || format!("template {ti} executed in state {pre_state:?} at ledger {cur}"));
-                rep.check("exec", matches!(pre_state, St::Pending(r) if r <= cur), "C08/exec/execute/before-ready", || format!("template {ti} executed at ledger {cur} in state {pre_state:?}"));
-                rep.check("exec", pred_ok, "C08/exec/execute/predecessor-not-done", || format!("template {ti} executed while predecessor {:?} is {:?}", t.pred_tpl, t.pred_tpl.map(|p| st[p])));
+                rep.check("exec", matches!(pre_state, St::Pending(_)), &format!("C08/exec/{name}/not-scheduled-or-done"), || format!("template {ti} executed in state {pre_state:?} at ledger {cur}"));
+                rep.check("exec", matches!(pre_state, St::Pending(r) if r <= cur), &format!("C08/exec/{name}/before-ready"), || format!("template {ti} executed at ledger {cur} in state {pre_state:?}"));
+                rep.check("exec", pred_ok, &format!("C08/exec/{name}/predecessor-not-done"), || format!("template {ti} executed while predecessor {:?} is {:?}", t.pred_tpl, t.pred_tpl.map(|p| st[p])));
                 st[ti] = St::Done;
-                executed[t.k as usize] += 1;
+                if !mark {
+                    executed[t.k as usize] += 1;
+                }
             }
         } else if k < 90 {
             name = "cancel";
@@ -237,7 +241,7 @@ fn history(cfg: &Cfg, rep: &mut Report, h: u64, steps: usize) {
 }
 
 pub fn run(cfg: &Cfg, rep: &mut Report) {
-    rep.rule = "Seeded histories of schedule/execute/cancel/set_min_delay/ledger moves over 7 operation templates with predecessor links (to done, pending, cancelled, never-scheduled, failing-target ids), delays on {0,min-1,min,min+1,1e6,u32::MAX,MAX-cur,MAX-cur+1}, ledger moved to {ready-1,ready,ready+1}. Distinct case = (op, position of cur relative to ready ledger / state, predecessor state, target fn, outcome).".into();
+    rep.rule = "Seeded histories of schedule/execute (execute_operation) / mark (set_execute_operation, the entry point self-administered controllers use)/cancel/set_min_delay/ledger moves over 7 operation templates with predecessor links (to done, pending, cancelled, never-scheduled, failing-target ids), delays on {0,min-1,min,min+1,1e6,u32::MAX,MAX-cur,MAX-cur+1}, ledger moved to {ready-1,ready,ready+1}. Distinct case = (op, position of cur relative to ready ledger / state, predecessor state, target fn, outcome).".into();
     let nh = cfg.pick(200u64, 8000);
     let steps = cfg.pick(120usize, 250);
     for k in 0..nh {
